@@ -1594,7 +1594,10 @@ impl Kanata {
                             );
                         }
                         CustomAction::CancelMacroOnNextPress(duration) => {
-                            self.macro_on_press_cancel_duration = *duration;
+                            // Another cancel-on-press macro may still be running: keep the
+                            // longer of the two windows instead of overwriting it.
+                            self.macro_on_press_cancel_duration =
+                                self.macro_on_press_cancel_duration.max(*duration);
                         }
                         CustomAction::SendArbitraryCode(code) => {
                             #[cfg(all(not(feature = "simulated_output"), target_os = "windows"))]
